@@ -40,6 +40,45 @@ theorem custom_arity (n : NodeIn α β) (p : NodeOut α β) (h : toOnnx n = [p])
   rw [hq] at h; cases h
   simp [hi, ho, len]
 
+/-- **custom_slot_offset.** Declared input positions are kept for *every* field arrangement — a
+    variadic field first, in the middle or last, any number of members, optionals set or unset before
+    and after it: the field that follows the fields `pre` starts at the flattened length of `pre`
+    (`len pre`, what `len(self.inputs)` counts), a Single/Optional field occupying exactly that
+    position (`""` when unset — also at the very tail), a Variadic one its `vs.length` positions. -/
+theorem custom_slot_offset (pre post : List (Arg α)) (a : Arg α) :
+    match a with
+    | .single v => (emitSlotsCustom (pre ++ a :: post))[len pre]? = some (some v)
+    | .opt v => (emitSlotsCustom (pre ++ a :: post))[len pre]? = some v
+    | .variadic vs => ∀ i, i < vs.length →
+        (emitSlotsCustom (pre ++ a :: post))[len pre + i]? = (vs[i]?).map some := by
+  have hc : emitSlotsCustom (pre ++ a :: post) = flatten pre ++ flatten (a :: post) := by
+    rw [show emitSlotsCustom (pre ++ a :: post) = flatten (pre ++ a :: post) from trim_len _, flatten_append]
+  cases a with
+  | single v => simp [hc, len, flatten]
+  | opt v => simp [hc, len, flatten]
+  | variadic vs =>
+    intro i hi
+    rw [hc, len, List.getElem?_append_right (by omega)]
+    simp [flatten, List.getElem?_append_left, hi]
+
+/-- **custom_length_is_flattened.** The emitted list has one name per *flattened* position — the sum
+    of the field sizes, not the number of declared fields. -/
+theorem custom_length_is_flattened (args : List (Arg α)) :
+    (emitSlotsCustom args).length =
+      (args.map fun a => match a with | .variadic vs => vs.length | _ => 1).sum := by
+  rw [show emitSlotsCustom args = flatten args from trim_len _]
+  induction args with
+  | nil => rfl
+  | cons a rest ih => cases a <;> simp [flatten, ih] <;> omega
+
+/-- **fields_len_counterexample.** Why `len(self.inputs)` must count flattened positions: with the
+    number of declared *fields* as minimum (3 here), `xs=[a,b,c], scale=None, bias=None` would lose its
+    two trailing declared positions. -/
+theorem fields_len_counterexample :
+    emitSlots 3 [Arg.variadic ["a", "b", "c"], .opt none, .opt none] = [some "a", some "b", some "c"] ∧
+    emitSlotsCustom [Arg.variadic ["a", "b", "c"], .opt none, .opt none]
+      = [some "a", some "b", some "c", none, none] := by decide
+
 /-- **custom_identity_free.** One Var in several declared inputs changes nothing: emission of a
     user-defined operator commutes with any (non-injective) renaming of its arguments. -/
 theorem custom_identity_free {γ : Type} (f : α → γ) (n : NodeIn α β) :
@@ -653,6 +692,14 @@ example : CustomInline.decide { imports := [("", 12), ("my.domain", 2)], nodeDom
     condition, whatever inputs the oracles generate — breaks this obligation. -/
 theorem adapt_exits_covered :
     Generated.AdaptAttrInventory.adaptInlineExits = CustomInline.coveredExits := by decide +kernel
+
+/-- **slotting_sources_covered** (tie G). `BaseVars._flatten/__iter__/__len__`, `Node.min_input/min_output`,
+    `StandardNode.min_input/min_output` and the popping loops of `Node.to_onnx`, as read from the source on
+    this run, are statement for statement the ones `Model/Emit.lean` (`flatten`, `len`, `emitSlots`,
+    `emitSlotsCustom`, `trimRev`) was written against: a `__len__` that counts declared fields, a changed
+    minimum or loop condition breaks this obligation whatever inputs are generated. -/
+theorem slotting_sources_covered :
+    Generated.AdaptAttrInventory.slotting = Emit.coveredSlotting := by decide +kernel
 
 /-- **adapt_functions_covered** (tie G). `_adapt.py` as a whole: its functions and the (kind, guards) of
     every exit of each. -/
